@@ -263,6 +263,12 @@ impl Conn {
             && ((s.id == 4 || s.id == 25) && old(self).searchmap@[t.0].accepts((SearchItem::Entry(s), t.1.1))
                 || s.id == 19 && old(self).searchmap@[t.0].accepts((SearchItem::Referral(s), t.1.1)))) ==>
             final(self).searchmap@ == old(self).searchmap@ && final(self).msgmap.1@ == old(self).msgmap.1@), //# C01+C05+C10.search_stays_registered_and_its_id_reserved_until_done_or_its_stream_is_dropped
+        // E2b: an entry / reference for a search whose stream was dropped (the item cannot be delivered): the search is
+        // over for the client -- its route and its id are released at once ("prematurely finished searches" of C13)
+        resp matches Some(Ok(t)) ==> (old(self).searchmap@.contains_key(t.0) && (t.1.0 matches Tag::StructureTag(s)
+            && ((s.id == 4 || s.id == 25) && !old(self).searchmap@[t.0].accepts((SearchItem::Entry(s), t.1.1))
+                || s.id == 19 && !old(self).searchmap@[t.0].accepts((SearchItem::Referral(s), t.1.1)))) ==>
+            !final(self).searchmap@.contains_key(t.0) && !final(self).msgmap.1@.contains(t.0)), //# C10+C13.E2b_an_item_for_a_dropped_stream_releases_route_and_id
         // E2: SearchResultDone delivered => route released and id released
         resp matches Some(Ok(t)) ==> (old(self).searchmap@.contains_key(t.0) && (t.1.0 matches Tag::StructureTag(s) && s.id == 5) ==>
             !final(self).searchmap@.contains_key(t.0)), //# C13.E2_search_done_releases_route
